@@ -311,11 +311,6 @@ static var Range_Get(var self, var key) {
   int64_t i = c_int(key);
   i = i < 0 ? Range_Len(r)+i : i;
   
-  if (r->step == 0) {
-    x->val = 0;
-    return x;
-  }
-  
   if (i < 0) {
     return throw(IndexOutOfBoundsError, 
       "Index '%i' out of bounds for Range of start %i, stop %i and step %i.", 
